@@ -108,7 +108,7 @@ impl Monitor for C19 {
 		"C19"
 	}
 	fn rule(&self) -> String {
-		"decoding: ALL 256 one-byte and ALL 65536 two-byte sequences, each placed in 16/31/10-byte fields at the start (NUL-terminated, random garbage after the NUL), in the middle after ASCII text, and flush against the end of a full field with no NUL (so a lead byte may be cut by the field end), through MeleeString::try_from; and patched into the name tag / netplay name / connect code of an occupied port of a complete v3.16 replay read with slippi::read (quick: one field x port per sequence, rotating; thorough: all three fields). Plus NUL at every position of every width with random valid text before and garbage after (garbage must not influence the result), and random multi-character valid/invalid strings. Reference: committed CPython cp932 table with the single bytes A0/FD/FE/FF as errors; an invalid sequence must yield Err, never U+FFFD. Normalisation: every Unicode scalar value (all 1,112,064) and random strings against the five-rule map, plus idempotence. distinct = (route, lead-byte class, outcome) classes.".into()
+		"decoding: ALL 256 one-byte and ALL 65536 two-byte sequences, each placed in 16/31/10-byte fields at the start (NUL-terminated, random garbage after the NUL), in the middle after ASCII text, and flush against the end of a full field with no NUL (so a lead byte may be cut by the field end), through MeleeString::try_from; and patched into the name tag / netplay name / connect code of an occupied port of a complete v3.16 replay read with slippi::read (quick: one field x port per sequence, rotating; thorough: all three fields). Plus every 3-byte prefix over 24 boundary bytes (13,824 prefixes) followed by ASCII text; NUL at every position of every width with random valid text before and garbage after (garbage must not influence the result), and random multi-character valid/invalid strings. Reference: committed CPython cp932 table with the single bytes A0/FD/FE/FF as errors; an invalid sequence must yield Err, never U+FFFD. Normalisation: every Unicode scalar value (all 1,112,064) and random strings against the five-rule map, plus idempotence. distinct = (route, lead-byte class, outcome) classes.".into()
 	}
 	fn assumptions(&self) -> Vec<String> {
 		vec!["reference table = CPython cp932 (tools/gen_cp932.py) with WHATWG's treatment of A0/FD/FE/FF; measured to agree with the pinned encoding_rs on every 1- and 2-byte sequence".into()]
@@ -212,6 +212,23 @@ impl Monitor for C19 {
 		}
 		// NUL positions + random strings
 		let k = idx - 256 - 17;
+		// every 3-byte prefix over a set of boundary bytes, followed by ASCII text
+		const EDGE: [u8; 24] = [0x00, 0x20, 0x3F, 0x40, 0x41, 0x5C, 0x7E, 0x7F, 0x80, 0x81, 0x9F, 0xA0, 0xA1, 0xB1, 0xBB, 0xBF, 0xDF, 0xE0, 0xEF, 0xFB, 0xFC, 0xFD, 0xFE, 0xFF];
+		for (ai, a) in EDGE.iter().enumerate() {
+			if ai % 32 != k % 32 && ai + 24 != k {
+				continue;
+			}
+			for b in EDGE {
+				for c in EDGE {
+					for (w, name) in WIDTHS {
+						let mut f = vec![*a, b, c, b'M', b'A', b'N', b'G', b'0', 0];
+						f.extend(rng.bytes(w - 9));
+						self.check_field(&mut out, &f, name);
+					}
+				}
+			}
+			out.class(format!("prefix3|first={:#04x}", a));
+		}
 		for _ in 0..ctx.tier.pick(400, 20000) {
 			let (w, name) = WIDTHS[rng.below(3)];
 			let nul_at = rng.below(w + 1);
